@@ -2,7 +2,7 @@
 import os, sys, json, importlib
 import common, chunit
 
-TIER_SCALE = {"quick": 1, "thorough": 4}
+TIER_SCALE = {"quick": 1, "thorough": 3}
 
 
 def harness_path(pid):
